@@ -95,6 +95,11 @@ add("C12", "exhaustive enumeration of the (symbol kind x access site x context x
     "Methods and private types reached without naming them are outside the statement and not asserted. Sites whose exported twin is rejected (assignment to another module's variable) are discarded as not expressible.",
     "DESIGN.md §4 C12")
 
+add("C03", "property-based testing by single-fault injection into generated well-typed programs (rapid; typed-AST site enumeration), reject-oracle with accepted base as control",
+    "A generated well-typed base (accepted by `ferret -t`, checked in every case) gets exactly one violation injected: one of 55 self-contained ill-typed snippets covering the 13 rule classes of the statement, inserted at a generated statement position (function, method, closure body, match arm / default, if / else, while / for / for-in body, catch handler, nested blocks); or one expression at a typed position (argument, struct-literal field, return value, condition, logical / arithmetic operand, initialiser, assignment, array element, catch fallback, append value) replaced by an incompatible value, a float literal or a legal widening cast of itself; or one node damaged (undefined name, argument dropped / added, catch removed, field renamed / dropped / added). The variant must be rejected with an error. Exploration.",
+    "Only violations of rule classes named in the property statement are generated. The rejection is not attributed to a particular diagnostic: any error counts (the base differs from the variant only by the injected fault).",
+    "DESIGN.md §4 C03")
+
 def main():
     props = [json.loads(l) for l in open(os.path.join(V, "properties.jsonl"))]
     checks, na = [], []
